@@ -88,6 +88,20 @@ def marker_stream(ctx, res, n):
         s.db.deep.note = cc.StringField()
         s.vault = Inner
         s.users = cc.ListField(Item)
+        # items whose own schema declares nothing sensitive: the sensitive values sit deeper (a sub-configuration, a list in it)
+        tok = cc.Schema()
+        tok.label = cc.StringField()
+        tok.value = cc.StringField(sensitive=True)
+        host = cc.Schema()
+        host.name = cc.StringField()
+        host.auth.user = cc.StringField()
+        host.auth.password = cc.SecureField(method="xor")
+        host.auth.tokens = cc.ListField(tok)
+        s.hosts = cc.ListField(cc.make_type(host, "Host%d" % i) if rng.random() < 0.5 else host)
+        # sensitive computed fields, shown only with virtual output
+        vmark = marker()
+        s.dsn = cc.VirtualField(lambda c, m=vmark: m, sensitive=True)
+        s.db.dsn = cc.VirtualField(lambda c, m=vmark + "-db": m, sensitive=True)
         s.empty_secret = cc.SecureField()
         s.unlisted = cc.SecureField(sensitive=False, method="xor")
         cfg = s()
@@ -111,6 +125,17 @@ def marker_stream(ctx, res, n):
         for j in range(rng.randint(1, 3)):
             u = {"name": marker(), "password": marker(), "pin": marker(), "prefs": {"token": marker(), "theme": marker()}}
             users.append(u)
+        hosts = []
+        for j in range(rng.randint(1, 2)):
+            hosts.append({"name": marker(), "auth": {"user": marker(), "password": marker(), "tokens": [{"label": marker(), "value": marker()} for _ in range(rng.randint(1, 2))]}})
+        cfg.hosts = copy.deepcopy(hosts)
+        for j, h in enumerate(hosts):
+            put(("hosts", j, "name"), h["name"], False)
+            put(("hosts", j, "auth", "user"), h["auth"]["user"], False)
+            put(("hosts", j, "auth", "password"), h["auth"]["password"], True)
+            for t, tk in enumerate(h["auth"]["tokens"]):
+                put(("hosts", j, "auth", "tokens", t, "label"), tk["label"], False)
+                put(("hosts", j, "auth", "tokens", t, "value"), tk["value"], True)
         cfg.users = copy.deepcopy(users)
         for j, u in enumerate(users):
             put(("users", j, "name"), u["name"], False)
@@ -135,6 +160,20 @@ def marker_stream(ctx, res, n):
                         if needle in blob and str(val) != mask:
                             res.violate("C10:leak-in-document", "a sensitive value appears in a masked document", dict(case, fmt=fmt, path=list(path)))
                             break
+            # virtual output: sensitive computed fields are masked like stored ones
+            for mask in MASKS:
+                vt = cfg.to_tree(virtual=True, sensitive_mask=mask)
+                res.case(("markers-virtual", i, mask), kind="virtual-mask")
+                for path, val in ((("dsn",), vmark), (("db", "dsn"), vmark + "-db")):
+                    want = (mask * len(val)) if len(mask) == 1 else mask
+                    try:
+                        got = at(vt, path)
+                    except (KeyError, TypeError):
+                        got = "<absent>"
+                    if got != want:
+                        res.violate("C10:not-masked:virtual", "a sensitive virtual field is not masked in virtual output",
+                                    {"stream": "markers", "mask": mask, "path": list(path), "got": got, "want": want})
+                check_tree(res, {"stream": "markers", "mask": mask, "virtual": True}, vt, cfg.to_tree(virtual=True), sens, plain, mask)
             if cfg.to_tree(sensitive_mask=None) != plain_tree:
                 res.violate("C10:no-mask-altered", "rendering without a mask is not deterministic / altered", {"stream": "markers"})
         finally:
